@@ -222,6 +222,26 @@ CHECKS["C11"] = dict(
     note=TB + "; circle functions (non-convex): exhaustive fine search as untrusted oracle, labelled in the evidence",
 )
 
+CHECKS["C18"] = dict(
+    category="proof",
+    text=("Proved in Coq about hand-written models of both simplex solvers (Model/Simplex.v = Jolt get_closest_point_to_origin with all helpers, "
+          "Model/SimplexOrig.v = backup procedure of the original GJK with the cofactor table, from_*, reorder) in exact arithmetic: (1) Jolt "
+          "closest_point_line is the exact minimum-norm point of the segment for ALL real inputs; (2) Jolt closest_point_triangle, non-degenerate "
+          "branch: for ALL real inputs each of the 7 Voronoi arms returns the exact minimum-norm point and a subset whose hull contains it; "
+          "(3) original solver, 1-4 points, ALL real inputs: weights >= 0, sum 1, reproduce the returned point from the selected points in the "
+          "returned order, v in the hull; (4) finite-domain theorems checked inside Coq (vm_compute + proven checker, slack 0): for EVERY "
+          "configuration of 1-4 points with coordinates in {-1,0,1} (551 880 configurations) both models return the exact minimum-norm point, a "
+          "carrier subset and (original) exact weights; (5) the property is FALSE for both models in exact arithmetic on small regular tetrahedra "
+          "around the origin (C18_orig_backup_refuted, C18_jolt_refuted = known findings C18-*-EPS-ABS). NOT proved for all reals: the Jolt "
+          "tetrahedron arm and global optimality of the original solver. Judged per generated input: every implementation result of both solvers "
+          "is accepted / rejected by the Coq-proven integer certificate (c18_z / bary_z) evaluated by vm_compute on the exact values of the "
+          "binary64 inputs / outputs; model = code is checked per input on all outputs (bit-exact on exact streams, stability-gated otherwise), "
+          "model branch coverage 39/39 + 43/43 on every quick run."),
+    design_ref="DESIGN.md section 5, C18",
+    technique="Coq proofs (R: lra/nra/field; Q/Z: vm_compute + proven certificate checkers) about Gallina models of both simplex solvers + per-run model/implementation correspondence",
+    note=TB + "; Checker/KktZ.f2z decodes binary64 literals via the kernel's Prim2SF; untrusted Python oracle supplies witnesses only",
+)
+
 NA_DEFAULT = "no check registered yet: machinery under construction in this session (DESIGN.md section 5 has the plan); not claimed"
 NA = {}
 
